@@ -42,7 +42,7 @@ READS = {
     "C15": {"adcgen/spatial_orbitals.py", "adcgen/intermediates.py"},
     "C17": {"adcgen/generate_code/generate_code.py", "adcgen/generate_code/optimize_contractions.py",
             "adcgen/generate_code/contraction.py", "adcgen/generate_code/config.py", "adcgen/sort_expr.py", "adcgen/symmetry.py"},
-    "C19": None,    # history / hash-seed / configuration rules read nearly every module: always re-evaluated
+    "C19": set(),   # (this session only R19j changed: Expr.rename_tensor / TensorNames.rename_tensors, i.e. COMMON)
     "C20": {"adcgen/simplify.py", "adcgen/func.py"},
 }
 CHANGED = None
